@@ -1,10 +1,11 @@
 #!/bin/sh
 # try_seed.sh <patch.diff> <ID> [<ID> ...]: applies the change to /repo, runs the quick checks of the given
-# properties, and undoes the change straight afterwards.
+# properties, and undoes the change straight afterwards (the evidence files, which every run rewrites, are
+# restored to the committed ones of the unchanged tree).
 P="$1"; shift
 cd /verif
 git -C /repo apply "$P" || { echo "patch does not apply"; exit 2; }
 for id in "$@"; do
   ./check "$id" --tier quick 2>&1 | grep -E "VIOLATION|KNOWN|\[check\]" | cut -c1-260
 done
-git -C /repo checkout -- . ; git -C /repo status --short | head -3
+git -C /repo checkout -- . ; git -C /verif checkout -- evidence ; git -C /repo status --short | head -3
